@@ -94,7 +94,8 @@ def run(ctx):
     if we:
         call = we.call_sites('column::Column::write_existing_value_plan')
         rm = we.call_sites('index::IndexTable::write_remove_plan')
-        ins = we.call_sites('index::IndexTable::write_insert_plan')
+        # (an arm of the planner may live in a helper every success path of which makes the insert: `write_plan_moved`)
+        ins = lib.must_sites(we, ['index::IndexTable::write_insert_plan'])
         ctx.ob('3a anchors', 'anchor', we.path, 'write_plan_existing: one value plan call, an index remove, one index insert', len(call) == 1 and len(rm) >= 1 and len(ins) == 1, '%s %s %s' % (call, rm, ins))
         # a removal that is followed by the insert (the entry of an OLDER index is dropped before the new address goes into the
         # current one) does not settle the matter by itself: only the insert, or a removal with nothing after it, does
@@ -110,9 +111,16 @@ def run(ctx):
         ok = none0 is not None and we.find_path([none0], we.return_blocks(), removed=set(rm) | set(ins) | core.error_exit_blocks(we)) is None
         ctx.ob('3b index-follows-value', 'K1-must-pass', we.path,
                'when the value plan reports no final outcome (value removed, or moved to another tier), every success path removes the index entry or inserts the new address', ok, '')
+        real_ins = [(we, s) for s in ins if call_matches(we.term(s), ['index::IndexTable::write_insert_plan'])]
         for s in ins:
-            fl = lib.receiver_fields(we, we.term(s), 0)
-            ctx.ob('3c moved-value-indexed-in-current-index', 'K4-provenance', we.path, 'a moved value is (re)inserted into the CURRENT index (tables.index), also when it was found through an old one', '.Tables.index' in fl, str(sorted(fl)))
+            if not call_matches(we.term(s), ['index::IndexTable::write_insert_plan']):
+                for n_ in sorted(set(call_names(we.term(s)))):
+                    hb_ = F.bodies.get(n_)
+                    if hb_ is not None:
+                        real_ins += [(hb_, x) for x in hb_.call_sites('index::IndexTable::write_insert_plan')]
+        for ib, s in real_ins:
+            fl = lib.receiver_fields(ib, ib.term(s), 0)
+            ctx.ob('3c moved-value-indexed-in-current-index', 'K4-provenance', ib.path, 'a moved value is (re)inserted into the CURRENT index (tables.index), also when it was found through an old one', '.Tables.index' in fl, str(sorted(fl)))
     # the index slot that is cleared is the one whose value was verified against the key (several keys can share the 54 bits
     # the index stores): the position flows search_all_indexes -> write_plan_existing -> write_remove_plan -> plan_remove_chunk
     # -> write_entry(empty, i) and is never re-derived from the partial key alone
